@@ -36,6 +36,7 @@
 //! state requires operation on the `UnsafeCell`.
 
 #![cfg_attr(feature = "nightly", feature(allocator_api))]
+#![cfg_attr(kani, recursion_limit = "512")]
 
 mod cache;
 mod eviction;
